@@ -15,7 +15,7 @@ CHECK = dict(
                'string: sizes 2/3/4/12/13/14, 2 valid + 3 invalid e-mails and 3 valid + 4 invalid phone numbers taken from the documented parameters and the library\'s own unit tests, "a b", "", absent, null, 7 (skipped). '
                'Sanitizer build (both tiers): F=1 all lists of <= 3 validators with per-validator default/custom message x all conditions; F=2 all lists <= 1 x <= 1 (3 message modes, boundary conditions '
                'of the kinds present) and exactly 2 x <= 1 (one representative condition per reference outcome); F=3 all lists <= 1 (one loaded condition per reference outcome + absent). Plain build (thorough only): F=2 all lists <= 2 x <= 2 (all default texts / mixed) '
-               'and exactly 3 x <= 1; F=3 all lists <= 1 and one field with exactly 2 validators (any position), others <= 1, one representative condition per reference outcome.',
+               'and exactly 3 x <= 1; F=3 all lists <= 1 and one field with exactly 2 validators (any position), others <= 1, one representative condition per reference outcome.'
                ' Second scenario (sanitizer build): bool, int32, uint8, double, string, registered enum, time_point and duration fields with Required and an isLoaded-recording validator, one field replaced by a value of another kind (11 kinds) or removed, MsgPack/JSON/XML, memory and stream, Skip policies; relational oracle (harness/kinds_scenario.hpp).',
     level_note='Trusted: ref/ref_validation.hpp (rules as documented in README.md and in the comment of SerializationOptions::maxValidationErrors), the independent document emitters of harness/typed_load.hpp. '
                'Paths are compared with the XML root element name and array positions aside (the statement excludes them: JSON/MsgPack count elements from 1, CSV from 0, XML names every element "object", so '
